@@ -639,13 +639,13 @@ def model_execg(ctx, trees, streams, fuel=60000):
     text = ''.join(f"{fuel} {','.join(str(v) for v in vs) or '-'} {sx(t)}\n" for t, vs in zip(trees, streams))
     res = []
     for l in ctx.driver('execg', text).splitlines():
-        m = re.match(r'valid=(\w+) gotoval=(\w+) (done (\w+)|timeout) oi=(\d+) : (.*)$', l)
+        m = re.match(r'valid=(\w+) gotoval=(\w+) jumps=(\d+) (done (\w+)|timeout) oi=(\d+) : (.*)$', l)
         if m:
-            res.append({'valid': m.group(1) == 'true', 'gotoval': m.group(2) == 'true', 'how': m.group(4) or 'timeout',
-                        'events': ev_model(m.group(6))})
+            res.append({'valid': m.group(1) == 'true', 'gotoval': m.group(2) == 'true', 'jumps': int(m.group(3)),
+                        'how': m.group(5) or 'timeout', 'events': ev_model(m.group(7))})
             continue
-        m = re.match(r'valid=(\w+) gotoval=(\w+) unsupported', l)
-        res.append({'valid': m.group(1) == 'true' if m else None, 'gotoval': m.group(2) == 'true' if m else None,
+        m = re.match(r'valid=(\w+) gotoval=(\w+) jumps=(\d+) unsupported', l)
+        res.append({'valid': m.group(1) == 'true' if m else None, 'gotoval': m.group(2) == 'true' if m else None, 'jumps': 0,
                     'how': 'unsupported' if m else l, 'events': None})
     return res
 
@@ -838,7 +838,12 @@ def nest_batch(ctx, corr, tag, nf, mode, maxdepth, fixed=None):
         g = eg[i]
         corr.count('specG:' + str(g['how']))
         if g['gotoval']:
-            corr.count('specG:computed-goto')
+            corr.count('specG:has-computed-goto')
+        if g.get('jumps'):
+            corr.count('specG:goto-executed')
+            corr.count('specG:goto-steps', g['jumps'])
+        if nested_case(t):
+            corr.count('specG:nested-case-label')
         if not g['valid'] or g['events'] is None:
             corr.disagreements.append({'kind': 'Spec.execG gives no meaning to a generated valid program (validG=%s, %s)' % (g['valid'], g['how']),
                                        'sexpr': sx(t), 'source': to_c(t, 0, style)})
@@ -861,7 +866,7 @@ def nest_batch(ctx, corr, tag, nf, mode, maxdepth, fixed=None):
                 corr.disagreements.append({'kind': 'Spec.exec and Spec.execG differ on a structured program (C03_execG_structured)',
                                            'sexpr': sx(t), 'exec': [e['how'], e['events'][:40]], 'execG': [g['how'], g['events'][:40]]})
                 ok = False
-            if not e['structured'] and len(g['events']) >= 4:
+            if (g.get('jumps') or nested_case(t)) and len(g['events']) >= 4:
                 corr.nontrivial.add('runG:' + hashlib.sha1((sx(t) + str(streams[i])).encode()).hexdigest())
         mm = mr[i]
         if mm['events'] is None or not agree(cc[0], cc[1], mm['events'], mm['how'] == 'end'):
@@ -878,6 +883,125 @@ def nest_batch(ctx, corr, tag, nf, mode, maxdepth, fixed=None):
         corr.sample({'nest': to_c(trees[i], 0, style).split('\n')[:14], 'values': streams[i][:8], 'trace': b.cc_runs[i][0][:16],
                      'skeleton_head': (sk.get(f'f{i}') or [])[:10]})
     return ok
+
+
+# ------------------------------------------------------------------------------------------------ jump battery
+
+def nested_case(t, in_item=False, top=False):
+    """does a switch of t carry a case/default label that is not in the label prefix of a top-level item of its body (Duff)?"""
+    k = t[0]
+    if k == 'switch':
+        body = t[3]
+        items = body[1] if body[0] == 'block' else [body]
+        for it in items:
+            x = it
+            while x[0] in ('case', 'default'):
+                x = children(x)[0]
+            if free_case(x) or nested_case(x):
+                return True
+        return False
+    return any(nested_case(c) for c in children(t))
+
+def free_case(t):
+    if t[0] in ('case', 'default'):
+        return True
+    if t[0] == 'switch':
+        return False
+    return any(free_case(c) for c in children(t))
+
+def jump_function(rng):
+    """one function made of directed jump idioms (Duff's device, goto into / out of loops and switches, backward goto,
+    chains of computed gotos), with fresh marker / oracle / label numbers"""
+    k = [0]
+    lab = [0]
+    def f():
+        k[0] += 1
+        return k[0]
+    def L():
+        lab[0] += 1
+        return lab[0]
+    def case(v, s, T='int', hi=None):
+        hi = v if hi is None else hi
+        return ('case', as_long(v), as_long(hi), s, lit(v, T), lit(hi, T))
+    def jump(l):
+        return (rng.choice(['goto', 'goto', 'gotoval']), l)
+    def duff():
+        T = rng.choice(list(TYPES))
+        n = rng.randint(2, 5)
+        vals = rng.sample(range(1, 10), n)
+        inner = [('m', f())]
+        for v in vals:
+            x = ('m', f())
+            if rng.random() < 0.3:
+                x = ('if', f(), case(v, x, T), rng.choice([('skip',), ('break',), ('m', f())]))
+                inner.append(x)
+            else:
+                inner.append(case(v, x, T))
+            if rng.random() < 0.2:
+                inner.append(('if', f(), ('continue',), ('skip',)))
+        if rng.random() < 0.4:
+            inner.insert(rng.randint(1, len(inner)), ('default', ('m', f())))
+        loop = ('do', ('block', inner), f()) if rng.random() < 0.6 else ('for', None, f(), f() if rng.random() < 0.5 else None, ('block', inner))
+        body = [case(0, loop, T)]
+        if rng.random() < 0.5:
+            body.append(case(12, ('m', f()), T, 20))
+        return [('switch', T, f(), ('block', body)), ('m', f())]
+    def into_loop():
+        l = L()
+        body = [('m', f()), ('label', l, ('m', f())), ('if', f(), ('continue',), ('skip',)), ('m', f())]
+        loop = rng.choice([('for', f(), f(), f(), ('block', body)), ('do', ('block', body), f()), ('for', None, f(), None, ('block', body))])
+        return [jump(l), ('m', f()), loop]
+    def backward():
+        l = L()
+        return [('label', l, ('m', f())), ('if', f(), ('block', [('m', f()), jump(l)]), ('skip',))]
+    def out_of_nest():
+        l = L()
+        T = rng.choice(list(TYPES))
+        inner = ('for', None, f(), f(), ('block', [('if', f(), jump(l), ('skip',)), ('m', f())]))
+        sw = ('switch', T, f(), ('block', [case(1, ('m', f()), T), case(2, inner, T, 5), ('break',), ('default', ('m', f()))]))
+        return [('for', None, f(), None, ('block', [sw, ('m', f())])), ('m', f()), ('label', l, ('m', f()))]
+    def into_switch():
+        l = L()
+        T = rng.choice(list(TYPES))
+        sw = ('switch', T, f(), ('block', [case(1, ('m', f()), T), ('label', l, ('m', f())), ('break',), ('default', ('m', f())),
+                                         case(3, ('m', f()), T)]))
+        return [('if', f(), jump(l), ('skip',)), sw]
+    def chain():
+        n = rng.randint(2, 4)
+        ls = [L() for _ in range(n)]
+        order = ls[:]
+        rng.shuffle(order)
+        end = L()
+        items = [('gotoval', order[0])]
+        for l in ls:
+            nxt = order[order.index(l) + 1] if order.index(l) + 1 < n else end
+            items += [('label', l, ('m', f())), ('gotoval' if rng.random() < 0.7 else 'goto', nxt)]
+        items.append(('label', end, ('m', f())))
+        return items
+    parts = []
+    for _ in range(rng.randint(1, 3)):
+        parts += rng.choice([duff, duff, into_loop, backward, out_of_nest, into_switch, chain])()
+    tree = ('block', parts)
+    vals = []
+    for _ in range(rng.choice([16, 30, 48])):
+        x = rng.random()
+        vals.append(0 if x < 0.3 else 1 if x < 0.6 else rng.randint(0, 13))
+    return tree, vals
+
+def jump_battery(ctx, corr):
+    nb = 1 if not ctx.thorough else 12
+    for bi in range(nb):
+        fixed = []
+        while len(fixed) < 24:
+            t, vs = jump_function(ctx.rng)
+            if not valid(t):
+                corr.count('generator-invalid')
+                continue
+            fixed.append((t, vs))
+            corr.count('jump-battery')
+        if not nest_batch(ctx, corr, f'jb{bi}', len(fixed), 'free', 6, fixed=fixed):
+            return False
+    return True
 
 
 # ------------------------------------------------------------------------------------------------ switch battery
@@ -1319,13 +1443,16 @@ def correspond(ctx, corr):
                  'harness with an oracle stream per function: traces equal; Spec.exec (Lean) == gcc on structured nests; Spec.execG (Lean, '
                  'all statement forms incl. goto / goto *&&L / nested case labels) == gcc == chibicc on every nest; model machine on '
                  'model code == chibicc; directed switch battery (9 controlling types x case sets at the type bounds, > 32 bits, negative, '
-                 'ranges x default position x values around every boundary); expression-level control vs gcc; hand-written corpus (Duff, '
+                 'ranges x default position x values around every boundary); directed jump battery (Duff\'s device with case labels in loops and ifs, '
+                 'goto / goto *&&L into and out of loops and switches, backward gotos, chains of computed gotos); expression-level control vs gcc; hand-written corpus (Duff, '
                  'computed-goto tables, goto into/out of loops).  (c) shadowing programs in all name spaces vs the scope model and gcc.  '
                  'non-trivial = nest of depth >= 3 with >= 3 statement forms / run with >= 4 events / scope program with >= 6 bound uses; '
                  'distinct by text.')
     if not corpus_run(ctx, corr):
         return
     if not switch_battery(ctx, corr):
+        return
+    if not jump_battery(ctx, corr):
         return
     nb = 6 if not ctx.thorough else 60
     for bi in range(nb):
@@ -1348,6 +1475,9 @@ def search(ctx, broken, corr):
         if c2.violations:
             return c2.violations[0]
     switch_battery(ctx, c2)
+    if c2.violations:
+        return c2.violations[0]
+    jump_battery(ctx, c2)
     if c2.violations:
         return c2.violations[0]
     scope_batch(ctx, c2, 150)
